@@ -524,14 +524,19 @@ func (x *x3Scn) xop(w []string) {
 		}
 		x.tail(vWaitQuiet(quiet), "N")
 	case "p2ppub":
-		id := x.begin(flt)
-		if peer, _ := x.c03xPeer(at(0), at(1)); peer != "" {
-			ne := ""
-			if a[3] == "1" {
-				ne = `,"noecho":true`
-			}
-			sc.send(at(0), `{"pub":{"id":"`+id+`","topic":"`+peer+`","content":`+a[2]+ne+`}}`)
+		peer, _ := x.c03xPeer(at(0), at(1))
+		if peer == "" {
+			// not a party: nothing is sent, nothing happens (whatever the fault plan says)
+			x.begin("N")
+			x.tail(vWaitQuiet(quiet), "N")
+			return
 		}
+		id := x.begin(flt)
+		ne := ""
+		if a[3] == "1" {
+			ne = `,"noecho":true`
+		}
+		sc.send(at(0), `{"pub":{"id":"`+id+`","topic":"`+peer+`","content":`+a[2]+ne+`}}`)
 		x.tail(vWaitQuiet(quiet), flt)
 	case "p2punload":
 		x.begin("N")
